@@ -236,6 +236,44 @@ def r31(ctx) -> None:
     R.check(sorted(nb) == ['msg', 'msg.body'], gb, gb.node,
             'get_body (non-binary) returns the part / its body unchanged',
             f'the non-binary branch of get_body returns {nb}')
+    # whole-section getters hand out the stored part object itself (an
+    # attribute chain from the sub-part), never something re-assembled
+    def chain_only(e) -> bool:
+        while isinstance(e, (ast.Attribute, ast.Subscript)):
+            e = e.value
+        return isinstance(e, ast.Name)
+
+    def is_empty(e) -> bool:
+        return isinstance(e, ast.Call) and call_name(e) == 'empty'
+    for nm in ('get_headers', 'get_message_text'):
+        g = ctx.proj.func(MSG, f'BaseLoadedMessage.{nm}')
+        vals = [r.value for r in walk_local(g.node)
+                if isinstance(r, ast.Return) and r.value is not None
+                and not is_empty(r.value)]
+        R.check(bool(vals) and all(chain_only(v) for v in vals), g, g.node,
+                f'{nm}: returns the stored part object',
+                f'{nm} returns {[txt(v) for v in vals]}: the section is '
+                f're-assembled instead of being the stored bytes')
+    g = ctx.proj.func(MSG, 'BaseLoadedMessage.get_message_headers')
+    gcfg = cfg_of(g)
+    tests = [t for t in gcfg.nodes if t.kind == 'test' and
+             isinstance(t.stmt.test, ast.Compare) and
+             txt(t.stmt.test) == 'subset is None']
+    whole = [r for r in gcfg.find(lambda n: isinstance(n.stmt, ast.Return))
+             if any(gcfg.controlled_by(r, t, 't') for t in tests)]
+    rebound = [t for t in tests for m, lab in t.succ if lab == 't'
+               and m.kind == 'stmt' and any(
+                   isinstance(x, ast.Name) and x.id in ('subset', 'inverse')
+                   for x in targets_of(m.stmt))]
+    R.check(bool(tests) and bool(whole) and not rebound and all(
+        chain_only(r.stmt.value) for r in whole), g, g.node,
+        'get_message_headers: BODY[HEADER] (no field list) returns the '
+        'stored header block',
+        'with no field list the header is not returned as stored but '
+        'falls through to the HEADER.FIELDS assembly (folded fields joined, '
+        'fixed CRLF appended): a bare-LF separator gains a CR, a header '
+        'line without colon disappears, a header-only message gains a '
+        'CRLF — BODY[HEADER] + BODY[TEXT] != b')
     # (d) the FETCH literal payload is what _get_data returned
     bf = ctx.proj.cls(FETCH, '_BodyFetchValue').own_method('get_value')
     ok = False
